@@ -23,7 +23,7 @@ TIE = {'core.get_n_best / Plurality and every evaluator ending in it; HighestAve
            'models shared with C05 / C12 / C17 (correspondence there); shape theorems here (Proofs/Shape2_proofs.v), and their outputs are judged by the extracted checker as well',
        'sequential.Baldwin (+ Baldwin._compute_negative_scores = the negated RankedToPositionalVotes.convert)': 'Model/Elimination.v, wire units 111 / 112: correspondence stream baldwin (extracted model vs the implementation: result lists in order, score dictionaries in order and value; candidates with equal scores compared as a set where a shared rank makes the order a frozenset iteration order); shape theorems C08_shape_baldwin / C08_shape_positional',
        'convert.ApprovalToSimpleVotes in front of plurality': 'Model/ApprovalSimple.v, wire unit 113: correspondence stream approval-simple (dictionaries as sets of items, exact values); theorem C08_shape_approval',
-       'sequential.Benham / TidemanAlternative; threshold selectors, bracketers, open lists, QuotaSelector; CondorcetWinner / SmithSet / SchwartzSet': 'models shared with C05 / C16 (correspondence there); shape theorems here (Proofs/Shape3_proofs.v, ShapeElim_proofs.v, TidemanIndex_proofs.v)',
+       'sequential.Benham / TidemanAlternative; threshold selectors, bracketers, open lists, QuotaSelector; CondorcetWinner / SmithSet / SchwartzSet': 'models shared with C05 / C16 (correspondence there); shape theorems here (Proofs/Shape3_proofs.v, ShapeElim_proofs.v, HybridTiers_proofs.v)',
        'every other evaluator of harness/evalreg.py': 'outputs judged by the extracted verified checker sel_shape_ok (selections) / declarative clauses (distributions)'}
 RULE = ('sweep: for each of the 65 evaluator configurations (63 of harness/evalreg.py + AllocatedScoreDistributor hare / droop; simple / approval / ranked incl. shared ranks / score / pairwise votes) random profiles '
         'with positive total weight, every n in 1..#candidates (sampled); selection results are encoded and judged by the extracted checker '
@@ -35,11 +35,12 @@ RULE = ('sweep: for each of the 65 evaluator configurations (63 of harness/evalr
         'once for r >= 2 seats with more than r members: allocated score; fewer than n distinct plain candidates: Bucklin / Oklahoma / STAR); an '
         'exception other than VotingSystemError / NotImplementedError is a violation for the families the property names (plurality, highest '
         'averages, largest remainder, transferable vote, Schulze, Copeland, minimax, positional, approval, score). model-shape: the checker on the '
-        'extracted get_n_best model (sanity of the wire encoding). baldwin: differential of the extracted Model/Elimination.v against sequential.Baldwin (six rank scorers; 1..6 candidates, bullet / truncated ballots, shared ranks, zero weights and weights up to 10^20, symmetrised profiles, tied losers ranked together at the bottom, one all-inclusive shared rank, an empty shared rank (ValueError on both sides), n in {0, 1, k-1, k, k+1, random}; 12 % of the cases compare the negative-score dictionary itself) with the declarative clause of C08_shape_baldwin evaluated on the implementation answer (well-formed profile, 1 <= n <= candidates: exactly n entries in shape, never an exception). sweeps: an exception other than VotingSystemError / NotImplementedError is also a violation for Baldwin, for Benham (one seat) and TidemanAlternative on a profile with two candidates (theorems C08_shape_baldwin / benham / tideman_outcomes), except the TypeError of TidemanAlternative for n >= 2 (known finding C08-tideman-multiseat). approval-simple: the extracted Model/ApprovalSimple.v against ApprovalToSimpleVotes(split).convert on random / symmetrised approval profiles with blank ballots and zero weights. non-trivial = result contains a tie or a refusal; distinct by case hash')
+        'extracted get_n_best model (sanity of the wire encoding). baldwin: differential of the extracted Model/Elimination.v against sequential.Baldwin (six rank scorers; 1..6 candidates, bullet / truncated ballots, shared ranks, zero weights and weights up to 10^20, symmetrised profiles, tied losers ranked together at the bottom, one all-inclusive shared rank, an empty shared rank (ValueError on both sides), n in {0, 1, k-1, k, k+1, random}; 12 % of the cases compare the negative-score dictionary itself) with the declarative clause of C08_shape_baldwin evaluated on the implementation answer (well-formed profile, 1 <= n <= candidates: exactly n entries in shape, never an exception). sweeps: an exception other than VotingSystemError / NotImplementedError is also a violation for Baldwin, for Benham (one seat) and TidemanAlternative (every n) on a profile on which somebody stands, a single candidate included (theorems C08_shape_baldwin / benham / tideman / tideman_outcomes / hybrids_single_candidate; the TypeError of TidemanAlternative for n >= 2 - finding C08-tideman-multiseat - and the IndexError on a single candidate are fixed and count as violations). approval-simple: the extracted Model/ApprovalSimple.v against ApprovalToSimpleVotes(split).convert on random / symmetrised approval profiles with blank ballots and zero weights. non-trivial = result contains a tie or a refusal; distinct by case hash')
 PARTIAL = ['no shape theorem (decided per explored case by the verified checker): the first-preference composite, '
            'allocated score (shape clause refuted: C08_shape_allocated_score_refuted); Benham / Tideman / Baldwin / positional theorems are over well-formed profiles '
-           '(no candidate twice on a ballot, no negative weight resp. no empty shared rank) with a pairwise contest; TidemanAlternative fills one seat only '
-           '(C08_shape_tideman_multiseat_refuted); the library has no Coombs class',
+           '(no candidate twice on a ballot, no negative weight resp. no empty shared rank); Benham / TidemanAlternative theorems are about the library with '
+           'fixes/C05-tideman-tiers.diff and fixes/C05-hybrid-single-candidate.diff (for the code without them: C08_shape_tideman_multiseat_refuted, '
+           'C08_shape_hybrids_single_candidate_refuted); the library has no Coombs class',
            'wrapper classes that need components (ByConstituency, Conditioned, TieBreaking, MultistageDistributor, PartyListEvaluator, ...) are swept by C14, '
            'BiproportionalEvaluator by C07, open-list evaluators by C16, seeded random selectors by C18']
 TRUSTED = []
@@ -254,13 +255,14 @@ def judge_error(e, r, case):
         # C08_shape_baldwin: on a well-formed profile Baldwin always answers (the registry's ranked profiles are well-formed)
         return 'Baldwin raises %s although it has an answer for every well-formed profile' % (r[2],)
     if e['name'] in ('benham', 'tideman_alt'):
-        # C08_shape_benham / C08_shape_tideman(_outcomes): with a pairwise contest (these profiles have no shared ranks: two
-        # candidates suffice) the only outcome besides an answer is NotImplementedError - and, for TidemanAlternative with
-        # n_seats >= 2, the TypeError of the unimplemented further tiers (known finding C08-tideman-multiseat).  A single
-        # candidate makes both raise IndexError (known finding C05-hybrid-empty-pairwise, property C05): not judged here.
+        # C08_shape_benham / C08_shape_tideman / C08_shape_tideman_outcomes / C08_shape_hybrids_single_candidate (repaired
+        # library: fixes/C05-tideman-tiers.diff, fixes/C05-hybrid-single-candidate.diff): on a well-formed profile on which
+        # somebody stands - a single candidate included - the only outcome besides an answer is NotImplementedError, for every
+        # number of seats of TidemanAlternative.  The TypeError of the further tiers (finding C08-tideman-multiseat) and the
+        # IndexError of a contest with a single candidate (finding C05-hybrid-empty-pairwise) are fixed: a violation if they return.
         # Benham is a single-winner rule by construction (assert n_seats == 1): only one-seat calls are judged.
-        if len(evalreg.candidates_of(e['vtype'], case['profile'])) >= 2 and (e['name'] == 'tideman_alt' or case['n'] == 1):
-            return '%s raises %s on a profile with a pairwise contest' % (e['name'], r[2])
+        if len(evalreg.candidates_of(e['vtype'], case['profile'])) >= 1 and (e['name'] == 'tideman_alt' or case['n'] == 1):
+            return '%s raises %s on a well-formed profile on which somebody stands' % (e['name'], r[2])
     return None        # other families: the declared-refusal clause does not name them (counted in the distribution)
 
 
